@@ -40,6 +40,9 @@ TraceNext ==
        [] Ev = "snapshot" -> /\ E.r \in Recs
                              /\ Logged(E.snap) = SnapOf(st[E.r])
                              /\ Snapshot(E.r) /\ Adv
+       \* a real-parallel round at quiescence: n threads registered the same metric as c, g, h on one fresh
+       \* recorder and updated once each; the snapshot must account for every update
+       [] Ev = "round"    -> Obs(E.n >= 1 /\ Logged(E.snap) = RoundSnapshot(E.n, E.nm, E.l))
        [] Ev = "note"     -> Obs(TRUE)
        [] OTHER -> FALSE      \* panic / unknown event: not a behaviour
 
